@@ -417,6 +417,7 @@ func registerStubs(ex *Exec) {
 		return &TupleV{E: []Value{Nil, &IfaceV{T: nil, V: ex.newOpaque("error")}}}
 	}
 	registerTomlStubs(ex)
+	registerFSStubs(ex)
 	registerStringStubs(ex)
 	registerRegexStubs(ex)
 }
@@ -449,6 +450,9 @@ func (ex *Exec) errorsIs(err, target Value) *smt.Term {
 	case *ChoiceV:
 		return smt.Ite(e.C, ex.errorsIs(e.A, target), ex.errorsIs(e.B, target))
 	case *IfaceV:
+		if ch, ok := e.V.(*ChoiceV); ok {
+			return smt.Ite(ch.C, ex.errorsIs(&IfaceV{T: e.T, V: ch.A}, target), ex.errorsIs(&IfaceV{T: e.T, V: ch.B}, target))
+		}
 		eq := ex.eqV(e, target)
 		if eq.IsTrue() {
 			return eq
